@@ -28,7 +28,12 @@ LEVEL = "fault_enumeration"
 OPTS = [{"closeSocket": True, "ignoreAbruptClose": False},
         {"closeSocket": False, "ignoreAbruptClose": False},
         {"closeSocket": True, "ignoreAbruptClose": True},
-        {"closeSocket": False, "ignoreAbruptClose": True}]
+        {"closeSocket": False, "ignoreAbruptClose": True},
+        # messages span three records and are read with read(min=len)
+        {"closeSocket": True, "ignoreAbruptClose": False,
+         "multi_record": True},
+        {"closeSocket": False, "ignoreAbruptClose": True,
+         "multi_record": True}]
 
 
 def allowed(point, alt):
@@ -82,6 +87,9 @@ def check_endpoint(who, o, opts, faulted, peer_closed_socket,
     exp = EXPECT[who]
     out = o["outcome"]
     hs_done = bool(log) and log[0][0] == "hs"
+    if o.get("dead_at_hs"):
+        fails.append("handshake reported complete after this endpoint's "
+                     "transport had failed (send error swallowed)")
     # log must be a prefix of the expected operation list, data a prefix
     for i, ent in enumerate(log):
         if ent[0] == "peer-closed":
